@@ -180,6 +180,12 @@ theorem orderings_all (n : Nat) (g : GetValues α) (v : Nat → α) (hg : Answer
   intro i hi
   exact phi_eq_shapleyOrd (List.mem_range.mp hi) v
 
+/-- the same with the executable enumeration `orderings` (first-element recursion) in place of Mathlib's
+    `List.permutations` -/
+theorem orderings_exec {n i : Nat} (hi : i < n) (g : GetValues α) (v : Nat → α) (hg : Answers n g v) :
+    shapleyForPlayer n g i = .ok (shapleyOrdE n v i) := by
+  rw [shapleyOrdE_eq]; exact orderings hi g v hg
+
 /-- the orderings summed over are all of them, each once, `n!` in total -/
 theorem orderings_complete (n : Nat) :
     (∀ σ : List Nat, σ ∈ (List.range n).permutations ↔ σ.Perm (List.range n)) ∧
@@ -224,6 +230,10 @@ example : shapley 3 (completeGame exV) = .ok [5 / 2, 5, 9 / 2] := by decide +ker
 example : shapleyForPlayer 3 (completeGame exV) 1 = .ok 5 := by decide +kernel
 example : ([[0, 1, 2], [1, 0, 2], [2, 1, 0], [1, 2, 0], [2, 0, 1], [0, 2, 1]].map (fun σ => marginal exV σ 1)).sum
     = 5 * 6 := by decide +kernel
+example : ICG.orderings (List.range 3) = [[0, 1, 2], [0, 2, 1], [1, 0, 2], [1, 2, 0], [2, 0, 1], [2, 1, 0]] := by
+  decide +kernel
+example : shapleyOrdE 3 exV 0 = 5 / 2 ∧ shapleyOrdE 3 exV 1 = 5 ∧ shapleyOrdE 3 exV 2 = 9 / 2 := by
+  decide +kernel
 /-- a null player: player 2 never adds anything -/
 example : ∀ S, S < 2 ^ 3 → S.testBit 2 = false →
     (fun c => ([0, 1, 2, 6, 0, 1, 2, 6].getD c 0 : Rat)) (S ||| 2 ^ 2)
@@ -251,6 +261,20 @@ theorem orderings_table_atRat (t : Table Rat) (hfull : ∀ c, c < 2 ^ t.n → t.
 
 theorem efficiency_atRat (n : Nat) (v : Nat → Rat) :
     ∃ l, AtRat.shapley n v = .ok l ∧ l.sum = v (grand n) - v 0 := efficiency n _ v (answers_complete n v)
+
+theorem null_player_atRat {n i : Nat} (hi : i < n) (v : Nat → Rat)
+    (hnull : ∀ S, S < 2 ^ n → S.testBit i = false → v (S ||| 2 ^ i) = v S) :
+    AtRat.shapleyForPlayer n v i = .ok 0 := null_player hi _ v (answers_complete n v) hnull
+
+theorem linear_atRat {n i : Nat} (hi : i < n) (a : Rat) (v w : Nat → Rat) :
+    ∃ x y z, AtRat.shapleyForPlayer n v i = .ok x ∧ AtRat.shapleyForPlayer n w i = .ok y ∧
+             AtRat.shapleyForPlayer n (fun c => a * v c + w c) i = .ok z ∧ z = a * x + y :=
+  linear hi a v w
+
+theorem symmetry_atRat {n : Nat} (σ : Equiv.Perm (Fin n)) (v v' : Nat → Rat)
+    (hv : ∀ c, c < 2 ^ n → v' (permMask σ c) = v c) (i : Fin n) :
+    ∃ x, AtRat.shapleyForPlayer n v i = .ok x ∧ AtRat.shapleyForPlayer n v' (σ i) = .ok x :=
+  symmetry σ v v' hv i
 
 theorem entry_points_atRat (n : Nat) (v : Nat → Rat) :
     AtRat.shapley n v = mapE (AtRat.shapleyForPlayer n v) (List.range n) := entry_points n _
